@@ -75,6 +75,7 @@ def run(ctx):
     lens = {}
     gram = {"tables": 0, "closed": 0, "oracle": 0, "oracle_fixpoint": 0, "states": [], "lang_sizes": []}
     nofix = set()
+    grepc = {}
     stats = {}
 
     def spec_of(cid):
@@ -90,6 +91,7 @@ def run(ctx):
             g = line.split()[1]
             kv = dict(p.split("=", 1) for p in line.split()[2:])
             gram["tables"] += 1
+            grepc[g] = "yes" if kv.get("repconflict", "0") != "0" else "no"
             gram["states"].append(int(kv["states"]))
             if kv["closed"] == "true":
                 gram["closed"] += 1
@@ -128,7 +130,7 @@ def run(ctx):
         if len(samples) < 6 and kv.get("err") == "0" and evals % 211 == 1:
             samples.append({"case": cid, "spec": spec_of(cid)[:300], "result": kv})
         judge = kv.get("judge", "?")
-        if g in nofix and judge.startswith("FAIL membership(member=false"):
+        if g in nofix and judge.startswith("FAIL membership") and "member=false" in judge:
             judge = "ok"   # the enumerator did not converge: its negative answers are not used
         if kv["corr"] != "skip":
             corr_cmp += 1
@@ -137,7 +139,9 @@ def run(ctx):
             judge_bad += 1
             viol.append((ln, "judge", "C03 judge failed on the real parser's output: " + judge,
                          {"case": cid, "spec": spec_of(cid), "result": kv},
-                         {"clause": clause_of(judge), "kind": gkind.get(g, "?")}, True))
+                         {"clause": clause_of(judge), "kind": gkind.get(g, "?"),
+                          "detail": (re.search(r"\(([^)]*)\)", judge) or [None, ""])[1] if clause_of(judge) == "membership" else "",
+                          "repetition_shift_next_to_non_recursive_reduce": grepc.get(g, "no")}, True))
         elif kv["corr"] not in ("ok", "skip"):
             corr_bad += 1
             viol.append((ln, "corr", "model LR driver on the dumped table and the real parser disagree: " + kv["corr"],
